@@ -30,6 +30,14 @@ def gen_case(rng, maxchain):
         elif k > 0 and w < 0.41:
             # the same cell, different orientation, through base= (setLatBase)
             lats.append({"kind": "rot-base", "of": 1, "rot": rotation(rng).tolist()})
+        elif k > 0 and w < 0.53:
+            # another setting of the SAME lattice (or of a super-lattice): new axes are integer combinations of the old ones -
+            # axes inverted in pairs, permuted cyclically, sheared, optionally multiplied (right-handed, det > 0)
+            M = rng.choice([[[-1, 0, 0], [0, 1, 0], [0, 0, -1]], [[-1, 0, 0], [0, -1, 0], [0, 0, 1]], [[1, 0, 0], [0, -1, 0], [0, 0, -1]],
+                            [[0, 1, 0], [0, 0, 1], [1, 0, 0]], [[0, 0, 1], [1, 0, 0], [0, 1, 0]], [[1, 1, 0], [0, 1, 0], [0, 0, 1]],
+                            [[1, 0, 0], [0, 1, 0], [1, 0, 1]], [[0, -1, 0], [1, 0, 0], [0, 0, 1]], [[1, 0, 1], [0, -1, 0], [0, 0, -1]]])
+            n = rng.choice([[1, 1, 1], [1, 1, 1], [2, 1, 3], [1, 2, 1]])
+            lats.append({"kind": "resetting", "of": 1, "M": [[M[i][j] * n[i] for j in range(3)] for i in range(3)]})
         else:
             lats.append(lattice_spec(rng, rng.choice(["oblique-rot", "oblique", "base", "base", "base", "hex", "ortho", "mono", "cubic"])))
     na = rng.choice([0, 1, 1, 2, 3, 4, 5])
@@ -84,6 +92,8 @@ def build_lats(case):
             out.append(Lattice(*L0.abcABG(), baserot=np.dot(L0.baserot, np.array(s["rot"]))))
         elif s["kind"] == "rot-base":
             out.append(Lattice(base=np.dot(out[s["of"] - 1].base, np.array(s["rot"]))))
+        elif s["kind"] == "resetting":
+            out.append(Lattice(base=np.dot(np.array(s["M"], dtype=float), out[s["of"] - 1].base)))
         else:
             out.append(make_lattice(s))
     return out
